@@ -222,13 +222,20 @@ func secOracleCapture(g *Gen) func() {
 		x := &secExec{}
 		defer x.Close()
 		pre := g.Engine + " "
+		// thorough tier: the replay doubles the cost of a history, so every third history carries tokens (500 of 1500
+		// histories, 3.5 x the quick tier); the others keep token-less sign lines (symbolic engine in the driver)
+		hist, skip := -1, false
 		for _, line := range strings.Split(strings.TrimRight(mem.String(), "\n"), "\n") {
 			if line == "reset" {
-				x.Reset()
+				hist++
+				skip = !g.Quick() && hist%3 != 0
+				if !skip {
+					x.Reset()
+				}
 				fmt.Fprintln(real, line)
 				continue
 			}
-			if !strings.HasPrefix(line, pre) {
+			if skip || !strings.HasPrefix(line, pre) {
 				fmt.Fprintln(real, line)
 				continue
 			}
